@@ -19,7 +19,8 @@ CALLS = {   # external calls of interest -> (label, SPEC raisable on arbitrary i
     "etree.parse": ("etree.parse", ["XMLSyntaxError"], False),
     "xml_deserialization.read_aas_xml_file": ("read_aas_xml_file", [], True),
     "aasx.AASXReader": ("AASXReader", ["FileNotFoundError", "ValueError"], True),
-    "reader.read_into": ("read_into", ["ValueError", "KeyError"], True),
+    "reader.read_into": ("read_into", ["ValueError", "KeyError", "XMLSyntaxError"], True),
+    "reader.reader.get_related_parts_by_type": ("get_related_parts", ["ValueError", "KeyError", "XMLSyntaxError"], False),
     "checker.check_object_store": ("check_object_store", ["KeyError", "AssertionError", "NotImplementedError"], False),
 }
 FUNCS = ["check_schema", "_check_schema", "check_deserialization", "check_json_files_equivalence", "check_xml_files_equivalence",
